@@ -504,10 +504,9 @@ pub fn run(opts: &Opts) {
         }
     }
     out.finish("cb: one compact block (consistent, lying about the root, or malformed) with one set of received transactions / uncles; fingerprint = the canonical answer");
-    let dir = w._node.dir.clone();
-    drop(w);
-    let _ = std::fs::remove_dir_all(dir);
-    // the tx-pool service keeps the runtime alive; leave through exit
+    // the chain / tx-pool service threads never stop on their own: remove the scratch directory and
+    // leave through exit without dropping the node
+    let _ = std::fs::remove_dir_all(&w._node.dir);
     std::process::exit(0);
 }
 
